@@ -135,9 +135,20 @@ func runHeaderCase(c *core.Case) *core.Result {
 		txid uint64
 	}
 	var bases []base
+	var created *base
 	walker := simdisk.NewWalker(ops, ps, nil)
 	for !walker.Done() {
 		op := walker.Step()
+		if op.Kind == simdisk.OpMarker && op.Marker == "created" && created == nil {
+			// the file as Open created it: two headers of the same (empty) state
+			img := walker.Image(func(i int) (bool, int) { return true, -1 })
+			created = &base{img, uint64(op.Arg)}
+			if st := w.States[created.txid]; st != nil && created.txid > 0 && w.States[created.txid-1] == nil {
+				prev := st.clone()
+				prev.Txid = created.txid - 1
+				w.States[prev.Txid] = prev
+			}
+		}
 		if op.Kind == simdisk.OpMarker && op.Marker == "commit-ok" {
 			img := walker.Image(func(i int) (bool, int) { return true, -1 })
 			bases = append(bases, base{img, uint64(op.Arg)})
@@ -149,6 +160,11 @@ func runHeaderCase(c *core.Case) *core.Result {
 	}
 	// one image per case (PRNG chosen), swept completely
 	b := bases[r.Intn(len(bases))]
+	if c.Idx%6 == 5 && created != nil {
+		// a file that never saw a commit
+		b = *created
+		res.Add("base_images_of_never_committed_files", 1)
+	}
 	stateOf := func(h Header) *State { return w.States[h.Txid] }
 	hNew, slotNew := NewestHeader(b.img, ps)
 	if !hNew.Valid || hNew.Txid != b.txid {
